@@ -24,7 +24,7 @@ PROP = dict(
           "every truncation point of small encodings (every 8th +-1 of large ones); byte flips; trailing garbage; random word strings; huge counts in front of every vector (child process). "
           "Each case: Rust Ok(value, consumed)/Err(kind)/panic vs the model; the model additionally re-checks typed/wf/erase-id/consumed=|enc|/dec(enc v)=v on its own result. "
           "Oracle on the real code: no panic; decode ok => to_bytes().len() == consumed == size() and from_bytes(to_bytes(v)) == v with nothing left. "
-          "distinct = (type, bytes); non-trivial = result is not BufferIsTooShort and input non-empty"),
+          "distinct = (type, bytes); non-trivial = result is not BufferIsTooShort and input non-empty. Oracle-only (too big for vm_compute): long vectors whose element storage exceeds 1 MiB, 4 MiB and 16 MiB for every element type under a Vec (Vec<u64> 200k/600k/2.2M; Create with 20k/70k/270k storage slots; Script with 50k/180k/720k witnesses, 8k/24k/95k inputs, 16k/56k/215k outputs, 3000 inputs + 3000 outputs; Upload with 40k/140k/540k proof-set entries): to_bytes -> from_bytes -> ==, consumed == size, re-encode equal; class long-vector-round-trip, replay = (kind, count, seed)."),
     level_text=("Functional half: machine-checked proof (Coq), by induction over the schema universe in the two phases of the Rust decoder, that whenever the model decoder returns a "
                 "value for ANY byte string, the consumed prefix is exactly as long as the value's encoding, the value is well-formed (so the C01 round trip applies to it), carries "
                 "no erased field, re-encodes, and decodes back to itself with nothing left - for Transaction, Input, Output, Receipt and every other C01 type. "
